@@ -537,6 +537,9 @@ func (u *Unit) evalCall(env *Env, e *Expr) Val {
 		return &Scalar{T: And(cs...), Typ: types.Typ[types.Bool]}
 	case "Includes":
 		// Includes(whole, part): see includesTerm
+		if args[1].Op == "str" {
+			u.strLit(args[1].Name)
+		}
 		return &Scalar{T: u.includesTerm(u.evalTerm(env, args[0]), u.evalTerm(env, args[1])), Typ: types.Typ[types.Bool]}
 	case "KeepsText":
 		// KeepsText(x): x is a wrapper whose message includes the message of what it wraps — fmt's %w wrapper, or one
